@@ -26,16 +26,20 @@ async fn file_size(file: &mut File) -> Result<u64, std::io::Error> {
     Ok(size)
 }
 
-async fn file_checksum(file: &mut File) -> Result<HashSum, std::io::Error> {
+// Checksum of the first `size` bytes of the file (a block device may be larger than the source).
+async fn file_checksum(file: &mut File, size: u64) -> Result<HashSum, std::io::Error> {
     file.seek(SeekFrom::Start(0)).await?;
     let mut output_hasher = Blake2b512::new();
     let mut buffer: Vec<u8> = vec![0; 4 * 1024 * 1024];
-    loop {
-        let rc = file.read(&mut buffer).await?;
+    let mut left = size;
+    while left > 0 {
+        let want = std::cmp::min(left, buffer.len() as u64) as usize;
+        let rc = file.read(&mut buffer[0..want]).await?;
         if rc == 0 {
             break;
         }
         output_hasher.update(&buffer[0..rc]);
+        left -= rc as u64;
     }
     Ok(HashSum::from(&output_hasher.finalize()[..]))
 }
@@ -328,10 +332,12 @@ where
 
     if opts.verify_output {
         info!("Verifying checksum of {}...", opts.output.display());
-        let sum = file_checksum(&mut output_file).await.context(format!(
-            "Failed to create checksum of {}",
-            opts.output.display()
-        ))?;
+        let sum = file_checksum(&mut output_file, archive.total_source_size())
+            .await
+            .context(format!(
+                "Failed to create checksum of {}",
+                opts.output.display()
+            ))?;
         let expected_checksum = archive.source_checksum();
         if sum == *expected_checksum {
             info!("Checksum verified Ok");
